@@ -309,8 +309,16 @@ def emitted_header(ctx) -> Tuple[FuncInfo, List[Seg], ast.AST]:
         order, fields = fmt_fields(fmt)
         ctx.ob("C06.R1", f"emit: {norm(t.func)} packs one value per field of {fmt!r}", len(fields) == len(args),
                ctx.w(ser, t), f"{len(args)} values for {len(fields)} fields")
+        def value_of(a):
+            # a constant of the transport class (`cls.X` / `self.X` / `SOCKS5UDPTransport.X`) stands for its value
+            p_ = ap(a) or ""
+            if ser.cls is not None and p_.count(".") == 1 and p_.split(".")[0] in ("cls", "self", ser.cls.name):
+                node = repo.class_attr(ser.cls, p_.split(".")[1])
+                if node is not None:
+                    return ev.ev(node)
+            return ev.ev(a)
         for c, a in zip(fields, args):
-            segs.append(Seg(order, c, enum_int(ev.ev(a))))
+            segs.append(Seg(order, c, enum_int(value_of(a))))
     return ser, segs, rets[0]
 
 
@@ -682,8 +690,11 @@ def r2(ctx):
     ctx.ob("C06.R2", "Circuit.send_datagram hands exactly the built packet to the transport once", bool(okp), sd.where)
 
     # transports
-    for q, mod, payload in (("SOCKS5UDPTransport.send_packet", PTRANS, "serialize"), ("SocketUDPTransport.send_packet", BTRANS, "data")):
-        f = repo.fn(q, mod)
+    for kname, mod in (("SOCKS5UDPTransport", PTRANS), ("SocketUDPTransport", BTRANS)):
+        q = f"{kname}.send_packet"
+        kcls = repo.cls(kname, mod)
+        f = repo.lookup_method(kcls, "send_packet")
+        ctx.require(f is not None, f"{kname}: no send_packet along its MRO")
         pk = msg_param(f)
         st_calls = find_calls(f.node, "sendto")
         ctx.ob("C06.R2", f"{q} sends one datagram", len(st_calls) == 1, f.where, f"found {len(st_calls)} sendto calls")
@@ -691,12 +702,39 @@ def r2(ctx):
             ctx.ob("C06.R2", f"{q} targets {pk}.dst_addr", len(c.args) >= 2 and ap(c.args[1]) == f"{pk}.dst_addr", ctx.w(f, c),
                    f"target is {norm(c.args[1]) if len(c.args) > 1 else None}")
             a0 = c.args[0] if c.args else None
-            if payload == "serialize":
-                okb = isinstance(a0, ast.Call) and call_attr(a0) == "serialize" and a0.args and ap(a0.args[0]) == pk \
-                    and len(a0.args) == 1 and not a0.keywords
-            else:
-                okb = ap(a0) == f"{pk}.data"
+            if isinstance(a0, ast.Name) and single_assign(f.node, a0.id) is not None:
+                a0 = single_assign(f.node, a0.id)
+            # the bytes are the packet's data, framed by the serialize() this class resolves to (the SOCKS transport:
+            # the header-adding one C06.R1 reads; the plain one: nothing but <packet>.data)
+            okb = False
+            if isinstance(a0, ast.Call) and call_attr(a0) == "serialize" and len(a0.args) == 1 and ap(a0.args[0]) == pk \
+                    and not a0.keywords and isinstance(a0.func, ast.Attribute) and ap(a0.func.value) in ("self", "cls", kname):
+                sz = repo.lookup_method(kcls, "serialize")
+                if kname == "SOCKS5UDPTransport":
+                    okb = sz is not None and sz == repo.fn("SOCKS5UDPTransport.serialize")
+                elif sz is not None:
+                    zr = [r for r in walk(sz.node) if isinstance(r, ast.Return)]
+                    zp = msg_param(sz)
+                    okb = len(zr) == 1 and ap(zr[0].value) == f"{zp}.data"
+            elif ap(a0) == f"{pk}.data":
+                okb = kname != "SOCKS5UDPTransport"
             ctx.ob("C06.R2", f"{q} sends the packet's own bytes", bool(okb), ctx.w(f, c), f"payload {norm(a0) if a0 is not None else None}")
+        # the SOCKS transport sends both ways: a refusal inherited from the plain transport must be switched off by a
+        # constant of the class
+        if kname == "SOCKS5UDPTransport":
+            kev = ConstEval(repo, kcls.module)
+            for r_ in [x for x in walk(f.node) if isinstance(x, ast.Raise)]:
+                dead = False
+                for e, pol in facts(r_, f.node):
+                    p_ = ap(e) or ""
+                    if p_.count(".") == 1 and p_.split(".")[0] in ("self", "cls", kname):
+                        node = repo.class_attr(kcls, p_.split(".")[1])
+                        v = kev.ev(node) if node is not None else None
+                        if isinstance(v, (bool, int)) and bool(v) != pol:
+                            dead = True
+                ctx.ob("C06.R2", f"{q} never refuses a packet because of its direction", dead, ctx.w(f, r_),
+                       f"`{norm(r_)}` is reachable for the SOCKS transport: datagrams from the simulators (inbound) are not "
+                       f"delivered to the viewer")
     # circuits opened with the right peers
     hp = repo.fn("InterceptingLLUDPProxyProtocol.handle_proxied_packet")
     pkp = msg_param(hp)
@@ -798,7 +836,8 @@ def selected_element(fn: FuncInfo, r: ast.Return) -> Tuple[ast.AST, Optional[str
 def equal_fact(node, sides: set, stop, key) -> Optional[bool]:
     """Is `a == b` (sides given as a set of key() texts) known at node?  `==` true and `!=` false both
     establish equality (guard-clause and nested spellings are the same fact)."""
-    for e, pol in facts(node, stop):
+    from .c05 import facts_resolved
+    for e, pol in (facts_resolved(node, stop) if stop is not None else facts(node, stop)):
         if isinstance(e, ast.Compare) and len(e.ops) == 1 and isinstance(e.ops[0], (ast.Eq, ast.NotEq)) \
                 and {key(e.left), key(e.comparators[0])} == sides:
             return pol if isinstance(e.ops[0], ast.Eq) else not pol
@@ -1537,6 +1576,123 @@ def r6(ctx):
     ctx.floor("C06.R6", "packet-id presence tests", n, 1)
 
 
+def _decodes_body(x, m: str) -> bool:
+    """x forces the lazily parsed body of message m to be decoded: a block access, .blocks, ensure_parsed()."""
+    if isinstance(x, ast.Subscript) and isinstance(x.ctx, ast.Load) and ap(x.value) == m:
+        return True
+    if isinstance(x, ast.Attribute) and ap(x.value) == m and x.attr in ("blocks", "ensure_parsed", "to_dict", "get_block"):
+        return True
+    return False
+
+
+def r3_main_region(ctx):
+    """With deferred parsing only the header was validated when the name is known: state that follows the agent
+    (Session.main_region) is moved only after the body was decoded, so a truncated datagram - which is discarded
+    at its first body access - leaves it alone."""
+    repo = ctx.repo
+    from .c05 import method_params, parsed_message_vars, resolve_any_call, resolve_method_call
+    hp = repo.fn("InterceptingLLUDPProxyProtocol.handle_proxied_packet")
+    mvars = parsed_message_vars(repo, hp)
+    ctx.require(len(mvars) == 1, f"handle_proxied_packet: expected one local holding the decoded message, found {sorted(mvars)}")
+    m = next(iter(mvars))
+
+    def movers(fn):
+        out = [st.node for st in stores(fn.node, into_defs=False) if st.kind == "assign" and st.path.endswith(".main_region")]
+        for c in calls(fn.node, into_defs=False):
+            h = resolve_any_call(repo, fn, c)
+            if h is None and isinstance(c.func, ast.Attribute):
+                cands = [g for g in repo.funcs.get(c.func.attr, []) if g.cls is not None and
+                         any(k.name in ("Session", "BaseClientSession") for k in repo.mro(g.cls))]
+                h = cands[0] if len(cands) == 1 else None
+            if h is not None and h != fn and (h.cls is None or h.cls != fn.cls) and \
+                    any(st.kind == "assign" and st.path == "self.main_region" for st in stores(h.node, into_defs=False)):
+                out.append(c)
+        return out
+    n = 0
+    sites = [(hp, mv, m, None) for mv in movers(hp)]
+    for hc in calls(hp.node, into_defs=False):
+        h = resolve_method_call(repo, hp, hc)
+        if h is None or h == hp:
+            continue
+        ps = method_params(h)
+        hm = next((ps[i] for i, a_ in enumerate(hc.args) if i < len(ps) and ap(a_) == m), None) or \
+            next((k.arg for k in hc.keywords if ap(k.value) == m), None)
+        for mv in movers(h):
+            sites.append((h, mv, hm, hc))
+    cfg = CFG(hp.node)
+    for fn, mv, mname, via in sites:
+        n += 1
+        ok = False
+        levels = [(fn, mv, mname, cfg if fn == hp else CFG(fn.node))] + ([(hp, via, m, cfg)] if via is not None else [])
+        for f_, node, mn, g in levels:
+            if mn is None:
+                continue
+            own = cfg_nodes(g, node)
+            dec = [k for k in g.nodes if k.ast is not None and k not in own and k.kind in ("stmt", "test", "loop", "with") and
+                   any(_decodes_body(x, mn) for x in walk(g._head_expr(k.ast) if k.kind != "stmt" else k.ast, into_defs=False))]
+            if own and not any(k in g.reachable([g.entry], avoid=lambda q: q in dec, exc=False) for k in own):
+                ok = True
+        ctx.ob("C06.R3", "handle_proxied_packet: Session.main_region moves only after the message body was decoded", ok,
+               ctx.w(fn, mv),
+               f"`{norm(mv)}` is reached on the strength of the message name alone (deferred parsing validated only the "
+               f"header): a truncated AgentMovementComplete is discarded at its first body access, but has already "
+               f"switched the session's main region")
+    ctx.floor("C06.R3", "sites that move Session.main_region", n, 1)
+
+
+def r4_command_channel(ctx):
+    """The command channel is the proxy's UI for chat the user types (viewer -> simulator).  A ChatFromViewer coming
+    from the simulator is an ordinary datagram that has to reach the viewer."""
+    repo = ctx.repo
+    from .c05 import method_params, resolve_method_call, xfacts
+    hl = repo.fn("AddonManager.handle_lludp_message")
+
+    def chan_atom(e) -> bool:
+        return isinstance(e, ast.Compare) and len(e.ops) == 1 and isinstance(e.ops[0], (ast.Eq, ast.Is)) and \
+            any((ap(x) or "").endswith(".COMMAND_CHANNEL") for x in (e.left, e.comparators[0]))
+
+    def direction_known_out(fs, mn) -> bool:
+        for e, pol in fs:
+            if isinstance(e, ast.Compare) and len(e.ops) == 1 and isinstance(e.ops[0], (ast.Eq, ast.NotEq, ast.Is, ast.IsNot)):
+                l, r = ap(e.left) or "", ap(e.comparators[0]) or ""
+                if f"{mn}.direction" in (l, r):
+                    other = r if l == f"{mn}.direction" else l
+                    eq = isinstance(e.ops[0], (ast.Eq, ast.Is)) == pol
+                    if (other.endswith("Direction.OUT") and eq) or (other.endswith("Direction.IN") and not eq):
+                        return True
+        return False
+    ps = method_params(hl)
+    ctx.require(len(ps) >= 3, "AddonManager.handle_lludp_message: expected (session, region, message)")
+    m = ps[2]
+    n = 0
+    fns = [(hl, m, None)]
+    for hc in calls(hl.node, into_defs=False):
+        h = resolve_method_call(repo, hl, hc)
+        if h is None or h == hl:
+            continue
+        hps = method_params(h)
+        hm = next((hps[i] for i, a_ in enumerate(hc.args) if i < len(hps) and ap(a_) == m), None) or \
+            next((k.arg for k in hc.keywords if ap(k.value) == m), None)
+        if hm is not None and any(chan_atom(x) for x in walk(h.node)):
+            fns.append((h, hm, hc))
+    for fn, mn, via in fns:
+        swallow = [c for c in calls(fn.node, into_defs=False) if call_attr(c) in ("drop_message", "_handle_command")]
+        swallow += [r_ for r_ in walk(fn.node) if isinstance(r_, ast.Return) and isinstance(r_.value, ast.Constant)
+                    and r_.value.value is True]
+        for sw in swallow:
+            fs = xfacts(repo, fn, sw)
+            if not any(chan_atom(e) and pol for e, pol in fs):
+                continue
+            n += 1
+            ok = direction_known_out(fs, mn) or (via is not None and direction_known_out(xfacts(repo, hl, via), m))
+            ctx.ob("C06.R4", "AddonManager.handle_lludp_message: only chat sent by the viewer is taken for a proxy command",
+                   ok, ctx.w(fn, sw),
+                   f"`{norm(sw)}` runs for a ChatFromViewer on the command channel whatever its direction: one sent by the "
+                   f"simulator is swallowed (and acked on the viewer's behalf) instead of being delivered to the viewer, and "
+                   f"its text is run as a proxy command")
+    ctx.floor("C06.R4", "command-channel swallow sites", n, 1)
+
+
 def run(ctx):
     r1(ctx)
     r2(ctx)
@@ -1545,7 +1701,9 @@ def run(ctx):
     r3_msgxml(ctx)
     r3_teardown(ctx)
     r3_claim(ctx)
+    r3_main_region(ctx)
     r4(ctx)
+    r4_command_channel(ctx)
     r5(ctx)
     r6(ctx)
     ctx.assume("message content integrity is C01/C02's codec; behaviour across sessions/regions at run time is not decided")
